@@ -42,6 +42,7 @@ public:
                      const AggregationConfig *aggregation_config)
       : instrument_descriptor_(instrument_descriptor),
         aggregation_type_{aggregation_type},
+        aggregation_config_{aggregation_config},
         cumulative_hash_map_(new AttributesHashMap()),
         delta_hash_map_(new AttributesHashMap()),
 #ifdef ENABLE_METRICS_EXEMPLAR_PREVIEW
@@ -69,7 +70,11 @@ public:
       }
 #endif
 
-      auto aggr = DefaultAggregation::CreateAggregation(aggregation_type_, instrument_descriptor_);
+      // the observation is aggregated with the configuration of the view (e.g. its histogram
+      // boundaries): the temporal storage merges it with aggregations built from the same
+      // configuration
+      auto aggr = DefaultAggregation::CreateAggregation(aggregation_type_, instrument_descriptor_,
+                                                        aggregation_config_);
       aggr->Aggregate(measurement.second);
       auto prev = cumulative_hash_map_->Get(measurement.first);
       if (prev)
@@ -136,6 +141,7 @@ public:
 private:
   InstrumentDescriptor instrument_descriptor_;
   AggregationType aggregation_type_;
+  const AggregationConfig *aggregation_config_;
   std::unique_ptr<AttributesHashMap> cumulative_hash_map_;
   std::unique_ptr<AttributesHashMap> delta_hash_map_;
   opentelemetry::common::SpinLockMutex hashmap_lock_;
